@@ -188,7 +188,22 @@ def window_clause(model, rep, funcs):
                     rep.ob("A", _f.anchor, "new_center == center - x0 (centre expressed in crop coordinates)", e.equals(want),
                            f"new_center = {e!r}; center - x0 = {want!r}", node=node, fn=_f, clause="1 window")
                 else:
-                    rep.ob("A", _f.anchor, "new_center == center - x0", None, f"new_center = {e!r}", node=node, fn=_f, clause="1 window")
+                    # not evaluable (e.g. joined over the clipping paths): decide the necessary condition that the centre does not depend on the *clipped* slice
+                    verdict, det_ = None, f"new_center = {e!r}"
+                    nc_node = node.args[0] if node.args else None
+                    if isinstance(nc_node, ast.Name):
+                        clipped = set()
+                        for st in walk_no_nested(_f.node):
+                            if isinstance(st, ast.Assign) and isinstance(st.value, ast.Call) and (dotted(st.value.func) or "").endswith("make_slice_and_pad"):
+                                clipped |= {x.id for t in st.targets for x in ast.walk(t) if isinstance(x, ast.Name)}
+                        for cc in calls_in(_f):
+                            if isinstance(cc.func, ast.Attribute) and cc.func.attr == "append" and isinstance(cc.func.value, ast.Name) and cc.func.value.id == nc_node.id and cc.args:
+                                used = {x.id for x in ast.walk(cc.args[0]) if isinstance(x, ast.Name)} & clipped
+                                if used:
+                                    verdict = False
+                                    det_ = (f"`{norm_src(cc)}`: the centre is measured from {sorted(used)} (the slice clipped to the tomogram) instead of the unclipped window "
+                                            "start x0; when the window crosses a low face the padded voxels are ignored and the whole sub-volume is shifted by the pad width")
+                    rep.ob("A", _f.anchor, "new_center == center - x0", verdict, det_, node=node, fn=_f, clause="1 window")
                 oca = dom.lift(oc) if oc is not None else None
                 want_oc = dom.add(dom.div(s, mkA(2)), mkA(Fraction(-1, 2)))
                 rep.ob("A", _f.anchor, "output_center == output_shape/2 - 1/2", (oca.equals(want_oc) if oca is not None else None),
